@@ -14,10 +14,12 @@ use std::cell::RefCell;
 use std::sync::Condvar;
 use std::time::{Duration, Instant};
 
-/// std build of the harness: workers keep the production behaviour.
+/// std build of the harness: a worker leaves its loop when the pool (and with it the
+/// sender) has been dropped, so that the thousands of pools the history search creates do
+/// not leave spinning threads behind. While a pool is alive this is never consulted.
 #[inline(always)]
 pub fn exit_on_disconnect() -> bool {
-    false
+    true
 }
 
 thread_local! {
